@@ -17,6 +17,7 @@
 from types import FrameType
 from typing import List
 
+import deep.logging
 from deep.api.tracepoint.trigger import Location
 
 from deep.processor.context.action_results import ActionCallback
@@ -71,7 +72,12 @@ class CallbackContext(Location, ActionCallback):
         :return: True, to keep this callback until next match.
         """
         for callback in self.__callbacks:
-            callback.process(ctx, event, frame, arg)
+            try:
+                callback.process(ctx, event, frame, arg)
+            except BaseException:
+                # one callback failing (e.g. a span that cannot be closed) must not cost the other callbacks, or the
+                # tracepoints that are due on this event
+                deep.logging.exception("Failed to process callback %s", callback)
 
     @property
     def id(self) -> str:
